@@ -19,7 +19,26 @@ import random
 import re
 from pathlib import Path
 
-from .gen import Case, pick, randcase
+from .gen import Case as _Case, pick, randcase
+
+
+class Case(_Case):
+    """A case whose commands can be given to the executors in the shape the server's parser
+    produces (harness memrun: 4th field "wire" of the CASE line; see harness/mem.go)."""
+    wire = False
+
+    def text(self):
+        return "CASE %s %d%s\n%s\nEND\n" % (self.name, self.dbs, " wire" if self.wire else "", "\n".join(self.lines))
+
+
+def wired(cases, suffix="w"):
+    """Copies of the cases with wire-shaped arguments."""
+    out = []
+    for c in cases:
+        w = Case(c.name + suffix, c.dbs)
+        w.lines, w.nsteps, w.wire = c.lines, c.nsteps, True
+        out.append(w)
+    return out
 
 KEYS = [b"k", b"K", b"key1", b"Key1", b"foo", b"FOO", b"", b"a b", b"x\r\ny", b"\x00\xff", b"k2", b"other"]
 VALS = [b"", b"v", b"Hello", b"hello world", b"10", b"-1", b"0", b"007", b"+5", b"-0", b"9223372036854775807",
@@ -35,7 +54,7 @@ FLOATS = [b"0.5", b"-0.5", b"0.25", b"1", b"-1", b"10.125", b"100", b"0.125", b"
           b"inf", b"-Infinity", b"nan", b"1e400", b"abc", b"", b" 1", b"1,5", b"hello"]
 IDX = [b"0", b"1", b"2", b"3", b"4", b"5", b"6", b"7", b"10", b"-1", b"-2", b"-3", b"-4", b"-5", b"-6", b"-7", b"-100",
        b"100", b"9223372036854775807", b"-9223372036854775808", b"x", b"", b"+1", b"01"]
-OFFS = [b"0", b"1", b"2", b"3", b"5", b"8", b"20", b"-1", b"x", b"", b"300", b"536870913",
+OFFS = [b"0", b"1", b"2", b"3", b"4", b"5", b"6", b"7", b"8", b"11", b"12", b"20", b"-1", b"x", b"", b"300", b"536870913",
         b"1000000000000", b"9223372036854775807", b"-9223372036854775808", b"+2", b"02"]
 PATTERNS = [b"*", b"k*", b"?", b"[kK]", b"[a-z]*", b"*1", b"K??1", b"\\k", b"[^k]*", b"*o*", b"[", b"k\\", b"[a-", b"**",
             b"a b", b"*\n*", b"", b"[\x00-\x7f]*", b"*\xff"]
@@ -326,6 +345,65 @@ def generic_key_cases(prepop_types=None):
     return cases
 
 
+# ---------------------------------------------------------------- SETRANGE past the end: reading the gap
+def gap_cases():
+    """A string value of length n obtained in every way (stored straight from a command argument
+    by SET / SET GET / MSET / SETNX / SETEX / APPEND on a missing key / RENAME of such a key; or
+    computed: INCRBY, APPEND growth, an earlier SETRANGE, INCRBYFLOAT), then SETRANGE at n+1, n+2,
+    n+3 with a 1- or 2-byte argument, then every command that reads the gap (GET, GETRANGE,
+    STRLEN, APPEND + GET, a second SETRANGE further out) and a dump.  Run in both argument shapes."""
+    vals = [b"", b"a", b"abc", b"0123456789", b"12", b"x\r\ny"]
+    creators = [
+        ("set", lambda v: [[b"set", b"g", v]]),
+        ("setget", lambda v: [[b"set", b"g", b"old"], [b"set", b"g", v, b"GET"]]),
+        ("mset", lambda v: [[b"mset", b"other", b"zz", b"g", v]]),
+        ("setnx", lambda v: [[b"setnx", b"g", v]]),
+        ("setex", lambda v: [[b"setex", b"g", b"100", v]]),
+        ("append0", lambda v: [[b"append", b"g", v]]),
+        ("rename", lambda v: [[b"set", b"src", v], [b"rename", b"src", b"g"]]),
+        ("appendgrow", lambda v: [[b"set", b"g", v[:1]], [b"append", b"g", v[1:]]]),
+        ("setrange", lambda v: [[b"setrange", b"g", b"0", v]] if v else [[b"set", b"g", v]]),
+    ]
+    cases = []
+    n = 0
+    for cname, mk in creators:
+        for v in vals:
+            for extra in (1, 2, 3):
+                for arg in (b"X", b"XY"):
+                    c = Case("c01g_%s_%d" % (cname, n))
+                    n += 1
+                    for a in mk(v):
+                        c.cmd(a)
+                    off = len(v) + extra
+                    c.cmd([b"setrange", b"g", b"%d" % off, arg])
+                    c.cmd([b"get", b"g"])
+                    c.cmd([b"getrange", b"g", b"%d" % max(len(v) - 1, 0), b"%d" % (off + 1)])
+                    c.cmd([b"strlen", b"g"])
+                    c.dump()
+                    c.cmd([b"append", b"g", b"Z"])
+                    c.cmd([b"get", b"g"])
+                    c.cmd([b"setrange", b"g", b"%d" % (off + len(arg) + 2), b"W"])
+                    c.cmd([b"get", b"g"])
+                    c.dump()
+                    cases.append(c)
+    # numbers: the stored value is computed by the server
+    for first, cmd2 in (([b"set", b"g", b"41"], [b"incr", b"g"]), ([b"incrby", b"g", b"1234"], None),
+                        ([b"incrbyfloat", b"g", b"10.5"], None), ([b"set", b"g", b"7"], [b"decrby", b"g", b"9"])):
+        for extra in (1, 2):
+            c = Case("c01g_num_%d" % n)
+            n += 1
+            c.cmd(first)
+            if cmd2:
+                c.cmd(cmd2)
+            c.cmd([b"strlen", b"g"])
+            for base in (2, 4):
+                c.cmd([b"setrange", b"g", b"%d" % (base + extra), b"X"])
+                c.cmd([b"get", b"g"])
+            c.dump()
+            cases.append(c)
+    return cases
+
+
 # ---------------------------------------------------------------- malformed arity, unknown commands
 def malformed_cases(seed):
     r = random.Random(seed * 7919 + 1)
@@ -361,7 +439,8 @@ def command_instances(prepop=None, large=False):
         for v in (b"1", b"-1", b"9223372036854775807", b"ab"):
             ins.append([b"incrby", k, v])
         ins += [[b"decrby", k, b"-1"], [b"getrange", k, b"1", b"-1"], [b"getrange", k, b"-1", b"9223372036854775807"],
-                [b"setrange", k, b"1", b""], [b"setrange", k, b"1", b"ab"], [b"incrbyfloat", k, b"0.5"]]
+                [b"setrange", k, b"1", b""], [b"setrange", k, b"1", b"ab"], [b"setrange", k, b"2", b"1"],
+                [b"incrbyfloat", k, b"0.5"]]
         for p in (prepop if k == b"k" else prepop[:1]):     # k: every other type, K: a list
             ins.append(p(k))
         if large:
@@ -390,6 +469,7 @@ def exhaustive_cases(length=3, sample=None, seed=1, prepop=None, large=False):
         idxs = itertools.product(range(m), repeat=length)
     for n, t in enumerate(idxs):
         c = Case("c01x_%s" % "_".join(map(str, t)))
+        c.wire = bool(n & 1)               # every other program in the parser's argument shape
         for i in t:
             c.cmd(ins[i])
         c.dump()
